@@ -41,86 +41,86 @@ func builtinErrorToString(call FunctionCall) Value {
 	return stringValue(fmt.Sprintf("%s: %s", name, message))
 }
 
-func (rt *runtime) newEvalError(message Value) *object {
-	o := rt.newErrorObject("EvalError", message, 0)
+func (rt *runtime) newEvalError(message Value, stackFramesToPop int) *object {
+	o := rt.newErrorObject("EvalError", message, stackFramesToPop)
 	o.prototype = rt.global.EvalErrorPrototype
 	return o
 }
 
 func builtinEvalError(call FunctionCall) Value {
-	return objectValue(call.runtime.newEvalError(call.Argument(0)))
+	return objectValue(call.runtime.newEvalError(call.Argument(0), 1))
 }
 
 func builtinNewEvalError(obj *object, argumentList []Value) Value {
-	return objectValue(obj.runtime.newEvalError(valueOfArrayIndex(argumentList, 0)))
+	return objectValue(obj.runtime.newEvalError(valueOfArrayIndex(argumentList, 0), 0))
 }
 
-func (rt *runtime) newTypeError(message Value) *object {
-	o := rt.newErrorObject("TypeError", message, 0)
+func (rt *runtime) newTypeError(message Value, stackFramesToPop int) *object {
+	o := rt.newErrorObject("TypeError", message, stackFramesToPop)
 	o.prototype = rt.global.TypeErrorPrototype
 	return o
 }
 
 func builtinTypeError(call FunctionCall) Value {
-	return objectValue(call.runtime.newTypeError(call.Argument(0)))
+	return objectValue(call.runtime.newTypeError(call.Argument(0), 1))
 }
 
 func builtinNewTypeError(obj *object, argumentList []Value) Value {
-	return objectValue(obj.runtime.newTypeError(valueOfArrayIndex(argumentList, 0)))
+	return objectValue(obj.runtime.newTypeError(valueOfArrayIndex(argumentList, 0), 0))
 }
 
-func (rt *runtime) newRangeError(message Value) *object {
-	o := rt.newErrorObject("RangeError", message, 0)
+func (rt *runtime) newRangeError(message Value, stackFramesToPop int) *object {
+	o := rt.newErrorObject("RangeError", message, stackFramesToPop)
 	o.prototype = rt.global.RangeErrorPrototype
 	return o
 }
 
 func builtinRangeError(call FunctionCall) Value {
-	return objectValue(call.runtime.newRangeError(call.Argument(0)))
+	return objectValue(call.runtime.newRangeError(call.Argument(0), 1))
 }
 
 func builtinNewRangeError(obj *object, argumentList []Value) Value {
-	return objectValue(obj.runtime.newRangeError(valueOfArrayIndex(argumentList, 0)))
+	return objectValue(obj.runtime.newRangeError(valueOfArrayIndex(argumentList, 0), 0))
 }
 
-func (rt *runtime) newURIError(message Value) *object {
-	o := rt.newErrorObject("URIError", message, 0)
+func (rt *runtime) newURIError(message Value, stackFramesToPop int) *object {
+	o := rt.newErrorObject("URIError", message, stackFramesToPop)
 	o.prototype = rt.global.URIErrorPrototype
 	return o
 }
 
-func (rt *runtime) newReferenceError(message Value) *object {
-	o := rt.newErrorObject("ReferenceError", message, 0)
+func (rt *runtime) newReferenceError(message Value, stackFramesToPop int) *object {
+	o := rt.newErrorObject("ReferenceError", message, stackFramesToPop)
 	o.prototype = rt.global.ReferenceErrorPrototype
 	return o
 }
 
 func builtinReferenceError(call FunctionCall) Value {
-	return objectValue(call.runtime.newReferenceError(call.Argument(0)))
+	return objectValue(call.runtime.newReferenceError(call.Argument(0), 1))
 }
 
 func builtinNewReferenceError(obj *object, argumentList []Value) Value {
-	return objectValue(obj.runtime.newReferenceError(valueOfArrayIndex(argumentList, 0)))
+	return objectValue(obj.runtime.newReferenceError(valueOfArrayIndex(argumentList, 0), 0))
 }
 
-func (rt *runtime) newSyntaxError(message Value) *object {
-	o := rt.newErrorObject("SyntaxError", message, 0)
+func (rt *runtime) newSyntaxError(message Value, stackFramesToPop int) *object {
+	o := rt.newErrorObject("SyntaxError", message, stackFramesToPop)
 	o.prototype = rt.global.SyntaxErrorPrototype
 	return o
 }
 
 func builtinSyntaxError(call FunctionCall) Value {
-	return objectValue(call.runtime.newSyntaxError(call.Argument(0)))
+	return objectValue(call.runtime.newSyntaxError(call.Argument(0), 1))
 }
 
 func builtinNewSyntaxError(obj *object, argumentList []Value) Value {
-	return objectValue(obj.runtime.newSyntaxError(valueOfArrayIndex(argumentList, 0)))
+	return objectValue(obj.runtime.newSyntaxError(valueOfArrayIndex(argumentList, 0), 0))
 }
 
 func builtinURIError(call FunctionCall) Value {
-	return objectValue(call.runtime.newURIError(call.Argument(0)))
+	return objectValue(call.runtime.newURIError(call.Argument(0), 1))
 }
 
 func builtinNewURIError(obj *object, argumentList []Value) Value {
-	return objectValue(obj.runtime.newURIError(valueOfArrayIndex(argumentList, 0)))
+	return objectValue(obj.runtime.newURIError(valueOfArrayIndex(argumentList, 0), 0))
 }
